@@ -2,6 +2,7 @@ package drv
 
 import (
 	"fmt"
+	"io"
 	"math/rand"
 	"runtime"
 	"sort"
@@ -152,6 +153,8 @@ type fragPattern struct {
 	Name string
 	Frag func(want int, off int64) int
 	EOF  bool
+	// Rich: the source also offers ReadByte, ReadAt and WriteTo
+	Rich bool
 }
 
 func fragPatterns(c *Ctx, fileID string) []fragPattern {
@@ -193,6 +196,9 @@ func fragPatterns(c *Ctx, fileID string) []fragPattern {
 			return want
 		}})
 	}
+	ps = append(ps, fragPattern{Name: "rich-source-whole", Rich: true},
+		fragPattern{Name: "rich-source-chunk5", Rich: true, Frag: func(want int, off int64) int { return 5 }},
+		fragPattern{Name: "rich-source-eof-with-data", Rich: true, EOF: true, Frag: func(want int, off int64) int { return 3 }})
 	return ps
 }
 
@@ -213,7 +219,7 @@ func runC08(c *Ctx) {
 		}
 		c.Out.Count("files", 1)
 		for _, p := range fragPatterns(c, f.ID) {
-			if (f.Kind == "aligned" || f.Kind == "xl") && p.Name != "chunk1" && p.Name != "chunk7" && p.Name != "chunk4096" && p.Name != "random0" && p.Name != "every3th-call-short" {
+			if (f.Kind == "aligned" || f.Kind == "xl") && p.Name != "chunk1" && p.Name != "chunk7" && p.Name != "chunk4096" && p.Name != "random0" && p.Name != "every3th-call-short" && p.Name != "rich-source-chunk5" {
 				continue
 			}
 			id := f.ID + "/" + p.Name
@@ -232,7 +238,12 @@ func runC08(c *Ctx) {
 				}
 				return CodecNames[f.Codec] + ":" + repoSite()
 			}
-			res := ReadAll(f.Shape, src, len(f.Recs)+5)
+			var rs io.ReadSeeker = src
+			if p.Rich {
+				rs = RichSource{src}
+				c.Out.Count("cases_with_rich_source", 1)
+			}
+			res := ReadAll(f.Shape, rs, len(f.Recs)+5)
 			c.Out.Count("read_calls", int64(src.Calls))
 			c.Out.Count("short_reads", int64(src.ShortReads))
 			c.Out.Count("eof_with_data_hits", int64(src.EOFHits))
@@ -326,8 +337,14 @@ func runC09(c *Ctx) {
 		c.Out.Count("sink_writes_total", int64(n))
 		c.Out.Sample(map[string]interface{}{"workload": f.ID, "sink_writes": n, "records": len(f.Recs), "partition": f.Part, "page": f.Page, "fault_positions": fmt.Sprintf("0..%d x {transient,sticky,partial}", n-1)})
 		for k := 0; k < n; k++ {
-			for _, mode := range []string{"transient", "sticky", "partial"} {
+			for mi, mode := range []string{"transient", "sticky", "partial", "transient", "sticky"} {
+				// the last two: a destination that also offers Flush/Sync/Close/WriteString/ReadFrom
+				// (all succeeding), as bufio.Writer, os.File or gzip.Writer do
+				rich := mi >= 3
 				id := fmt.Sprintf("%s/k=%d/%s", f.ID, k, mode)
+				if rich {
+					id += "/rich-sink"
+				}
 				if !c.Take(id) {
 					continue
 				}
@@ -342,13 +359,23 @@ func runC09(c *Ctx) {
 					}
 				}
 				// label every op so that the failing API call is known
-				out := runLabelled(f.Shape, sink, f.Page, f.Codec, ops)
+				var dst io.Writer = sink
+				var rs *RichSink
+				if rich {
+					rs = &RichSink{Sink: sink}
+					dst = rs
+					c.Out.Count("cases_with_rich_sink", 1)
+				}
+				out := runLabelled(f.Shape, sink, dst, f.Page, f.Codec, ops)
+				if rs != nil && rs.Flushes+rs.Syncs+rs.Closes > 0 {
+					c.Out.Count("optional_sink_methods_called", int64(rs.Flushes+rs.Syncs+rs.Closes))
+				}
 				c.Out.Count("site_"+site, 1)
 				c.Out.SetAdd("fault_sites", site)
-				c.Out.Distinct(fmt.Sprintf("%s|%s|%d|%s", f.Shape.Name, CodecNames[f.Codec], k, mode)+f.ID, true)
+				c.Out.Distinct(fmt.Sprintf("%s|%s|%d|%s|%v", f.Shape.Name, CodecNames[f.Codec], k, mode, rich)+f.ID, true)
 				bad := func(kind, detail string) {
 					c.Out.Violate(Violation{Prop: "C09", Key: fmt.Sprintf("site=%s;kind=%s", site, kind), Case: id, Shape: f.Shape.Name,
-						Detail: fmt.Sprintf("workload %s: sink write #%d of %d (%s, during %s, mode %s): %s", f.ID, k, n, site, sink.FailedIn, mode, detail)})
+						Detail: fmt.Sprintf("workload %s: sink write #%d of %d (%s, during %s, mode %s, rich sink %v): %s", f.ID, k, n, site, sink.FailedIn, mode, rich, detail)})
 				}
 				if out.Panic != nil {
 					bad("panic", fmt.Sprintf("%v\n%s", out.Panic, clip(out.Stack)))
@@ -376,7 +403,7 @@ type labelledOutcome struct {
 }
 
 // runLabelled is RunHistory with per-op labels ("new", "3:write", "9:close").
-func runLabelled(sh *Shape, sink *Sink, page, codec int, ops []Op) (out labelledOutcome) {
+func runLabelled(sh *Shape, sink *Sink, dst io.Writer, page, codec int, ops []Op) (out labelledOutcome) {
 	sc := sh.Schema()
 	defer func() {
 		if r := recover(); r != nil {
@@ -385,7 +412,7 @@ func runLabelled(sh *Shape, sink *Sink, page, codec int, ops []Op) (out labelled
 		}
 	}()
 	sink.Label = "new"
-	w, err := sh.NewWriter(sink, page, codec)
+	w, err := sh.NewWriter(dst, page, codec)
 	if err != nil {
 		out.CtorErr = err
 		out.errLabel = "new"
@@ -428,8 +455,8 @@ func runC10(c *Ctx) {
 			continue
 		}
 		sc := f.Shape.Schema()
-		for _, frag := range []int{0, 7} {
-			if frag > 0 && f.Kind == "xl" {
+		for _, frag := range []int{0, 7, -1} {
+			if frag != 0 && f.Kind == "xl" {
 				// seven-byte reads of megabyte pages make hundreds of thousands of fault
 				// positions that differ only in the offset inside one page body
 				continue
@@ -441,8 +468,15 @@ func runC10(c *Ctx) {
 				}
 				return s
 			}
+			// frag == -1: whole reads through a source that also offers ReadByte/ReadAt/WriteTo
+			wrap := func(s *Source) io.ReadSeeker {
+				if frag == -1 {
+					return RichSource{s}
+				}
+				return s
+			}
 			b := mk()
-			base := ReadAll(f.Shape, b, len(f.Recs)+5)
+			base := ReadAll(f.Shape, wrap(b), len(f.Recs)+5)
 			if base.Panic != nil || base.Reported() || CompareRecs(sc, f.Recs, base.Recs) != "" {
 				if frag == 0 {
 					c.Out.Inconclusive(fmt.Sprintf("file %s does not read back without faults (a C01 matter)", f.ID))
@@ -468,7 +502,10 @@ func runC10(c *Ctx) {
 					src.FailMode = mode
 					site := ""
 					// classify by where the fault landed in the file
-					res := ReadAll(f.Shape, src, len(f.Recs)+5)
+					res := ReadAll(f.Shape, wrap(src), len(f.Recs)+5)
+					if frag == -1 {
+						c.Out.Count("cases_with_rich_source", 1)
+					}
 					site = readSite(file, src)
 					c.Out.Count("site_"+site, 1)
 					c.Out.SetAdd("fault_sites", site)
@@ -1069,6 +1106,31 @@ func runC11Embedded(c *Ctx) {
 					tails[name] = "\x00REPLACE\x00" + string(fb[po.FooterOff:])
 					// and the whole other file
 					tails[fmt.Sprintf("whole-%d-row-file", nrec)] = "\x00REPLACE\x00" + string(fb)
+				}
+			}
+		}
+		// the tail and the whole body of a file of ANOTHER struct (no column in common with this
+		// one's): a prefix ending there carries a footer in which the reading struct finds none of
+		// its columns
+		shs := c.SelShapes()
+		for oi, osh := range shs {
+			if osh != sh {
+				continue
+			}
+			other := shs[(oi+1)%len(shs)]
+			if other == sh {
+				break
+			}
+			var oc uint64
+			opool, _ := EnumStructures(other.Schema(), lensSmall, 3, &oc)
+			fo := &ioFile{ID: sh.Name + "/embedded/other-struct", Shape: other, Codec: 0, Page: 1000, Recs: opool, Part: []int{len(opool)}}
+			if fb, ok := fo.write(c); ok {
+				if po, err := pqfile.Parse(fb); err == nil {
+					tails["tail-of-a-file-of-struct-"+other.Name] = "\x00REPLACE\x00" + string(fb[po.FooterOff:])
+					tails["whole-file-of-struct-"+other.Name] = "\x00REPLACE\x00" + string(fb)
+					if c.Shard == 0 {
+						c.Out.Count("embedded_files_of_another_struct", 1)
+					}
 				}
 			}
 		}
